@@ -648,7 +648,43 @@ def main():
             os.remove(LEAN + '/Libvna/Gen/Conv2Thm/' + f)
     write_if_changed(LEAN + '/Libvna/Gen/Conv2All.lean',
                      '/- GENERATED -/\n' + ''.join('import Libvna.Gen.Conv2Thm.%s\n' % fn for fn in sorted(thm_files)))
+    # executable dispatch table for the driver (K = CF)
+    T = ['/- GENERATED by tools/tr_conv2.py -- do not edit -/',
+         'import Libvna.Gen.Conv2', 'import Libvna.Model.Scalar', 'namespace Libvna.Gen', 'open Libvna',
+         '/-- run the translated two-port function `fn` on IEEE doubles; `out0` is the initial content of the',
+         '    output array (separate-array call), `ali` selects the aliased store-sequence rendering -/',
+         'def conv2Call (fn : String) (ali : Bool) (m : M2 CF) (z0 : V2 CF) (o : M2 CF) (ov : V2 CF) : Option (List CF) :=',
+         '  match fn with']
+    for fn in sorted(thm_files):
+        ps = meta[fn]['params']
+        outshape = [sh for (_, sh, c) in ps if not c][0]
+        def args(al):
+            a = []
+            for (nm, sh, c) in ps:
+                if c and sh == 'M2':
+                    a.append('m')
+                elif c:
+                    a.append('z0')
+                elif not al:
+                    a.append('o' if sh == 'M2' else 'ov')
+            return ' '.join(a)
+        if outshape == 'M2':
+            T.append('  | "%s" => let r := if ali then %s_alias CF.conj CF.sqa %s else %s CF.conj CF.sqa %s' % (fn, fn, args(True), fn, args(False)))
+            T.append('      some [r.m11, r.m12, r.m21, r.m22]')
+        else:
+            T.append('  | "%s" => if ali then none else let r := %s CF.conj CF.sqa %s' % (fn, fn, args(False)))
+            T.append('      some [r.x1, r.x2]')
+    T += ['  | _ => none', 'end Libvna.Gen', '']
+    write_if_changed(LEAN + '/Libvna/Gen/Conv2Table.lean', '\n'.join(T))
     os.makedirs(os.path.dirname(HERE) + '/gen', exist_ok=True)
+    # C-side table
+    C = ['/* GENERATED by tools/tr_conv2.py */']
+    for fn in sorted(thm_files):
+        ps = meta[fn]['params']
+        outshape = [sh for (_, sh, c) in ps if not c][0]
+        kind = 2 if outshape == 'V2' else (1 if meta[fn]['has_z0'] else 0)
+        C.append('{ "%s", %d, (void (*)(void))%s },' % (fn, kind, fn))
+    write_if_changed(os.path.dirname(HERE) + '/gen/conv2_table.inc', '\n'.join(C) + '\n')
     with open(os.path.dirname(HERE) + '/gen/conv2.json', 'w') as f:
         json.dump(meta, f, indent=1, sort_keys=True)
     bad = {k: v['error'] for k, v in meta.items() if 'error' in v}
